@@ -132,7 +132,7 @@ class YAMLSpecification(Specification):
             )
             spec = yaml.load(stream)
 
-        logger.debug("Loaded specification -- \n%s", spec["description"])
+        logger.debug("Loaded specification -- \n%s", spec.get("description"))
         specification = cls()
         specification.path = None
         specification.description = spec.pop("description", {})
